@@ -22,7 +22,7 @@ RULE = ("(names) Hypothesis expression trees over a confusable vocabulary (names
         "malformed, equal up to spaces) x {parse, evaluator}, each sequence run in a forked child of a process that "
         "never parsed; every call's outcome (names, value, or error type+message) must equal the outcome of the same "
         "call made first in a pristine process and, for parse, on a freshly constructed MathParser. Non-trivial iff a "
-        "failing call precedes a succeeding one or a cache key repeats. (history-inf) EXHAUSTIVE sequences of length <= 3 over 5 strings (three of them overflowing constants) x {evaluator, evaluator with allow_inf=True, parse}. (random) longer sequences (<= 40 calls incl. "
+        "failing call precedes a succeeding one or a cache key repeats. (history-inf) EXHAUSTIVE sequences of length <= 3 over 6 strings (three overflowing constants, one 120-deep nesting that dies with RecursionError) x {evaluator, evaluator with allow_inf=True, parse}. (random) longer sequences (<= 40 calls incl. "
         "FormulaGrader calls) over generated strings. Distinct by spec hash.")
 ASSUMPTIONS = ["pool workers are forked from a parent that has imported the library but never parsed (the parser cache "
                "is empty after import); each history case runs in its own forked child, so cases do not see each other",
@@ -282,7 +282,10 @@ def judge_history(spec, rec):
 
 
 # the same string evaluated with and without allow_inf (a memoised value must not leak across the option)
-INF_EVENTS = [(op, s) for op in 'eip' for s in ['1e999', '1e308*10', '[1, 1e999]', 'x+y', '2']]
+# ... and a bracket-balanced but very deeply nested string that mentions names: parsing it dies with RecursionError
+# inside pyparsing (not a ParseException); whatever the parser collected before must not leak into the next string
+DEEP = 'sin(z)+' + '(' * 120 + '1' + ')' * 120
+INF_EVENTS = [(op, s) for op in 'eip' for s in ['1e999', '1e308*10', '[1, 1e999]', 'x+y', '2', DEEP]]
 
 
 def items_history_inf(tier):
